@@ -18,7 +18,9 @@ var c20Alphabet = []string{"a", "Z", "0", "9", "_", ".", "-", "/", " ", "Ã©", "ä
 
 var c20SpecialKeys = []string{"container.name", "container-id", "container", "container/image", "container state",
 	"duration.seconds", "duration_seconds", "duration", "bytes", "rate", "count-over-time", "label.replace", "sum", "topk", "ip", "vector", "avg_over_time", "first-over-time",
-	"On", "By", "OR", "Offset", "JSON", "Keep", "Group_Left", "Line-Format", "Sum", "IP"} // case variants of keywords are ordinary names
+	"On", "By", "OR", "Offset", "JSON", "Keep", "Group_Left", "Line-Format", "Sum", "IP", // case variants of keywords are ordinary names
+	// the short names docker ps --filter and Compose use: as Docker label keys they are labels of their own
+	"id", "name", "image", "state", "status", "label", "service", "project", "health", "network", "command", "created", "names", "ports"}
 
 // words of the grammar that can never be read as a label name inside {...}; function and conversion
 // names (rate, sum, bytes, duration_seconds, ip, ...) are ordinary identifiers unless followed by "("
